@@ -36,6 +36,10 @@ in their common vertex, non-adjacent segments do not meet -/
 def simplePath (l : Path) : Bool :=
   let es := pairs l
   decide (2 ≤ l.length) && es.all (fun e => decide (e.1 ≠ e.2)) &&
+  -- a path whose abscissae strictly increase is simple (segments occupy disjoint x-ranges); this
+  -- keeps the test linear for the lines of thousands of vertices
+  (es.all (fun e => decide (e.1.x < e.2.x))) ||
+  decide (2 ≤ l.length) && es.all (fun e => decide (e.1 ≠ e.2)) &&
   (idxPairs es).all fun ((i, e), (j, f)) =>
     if j = i + 1 then !onSeg f.1 f.2 e.1 && !onSeg e.1 e.2 f.2
     else !segsMeet e.1 e.2 f.1 f.2
